@@ -15,7 +15,65 @@ type AnyBuf interface {
 	Snap() []Val // every sample in [0, Len)
 	Raw() any
 	Type() TypeInfo
+	Append(src AnyBuf)     // src must have the same element type
+	Channel(c int) AnyChan // the channel view
+	BufferIndex(c, i int) int
 }
+
+// AnyChan is a type-erased signal.C[T].
+type AnyChan interface {
+	Sample(i int) Val
+	SetSample(i int, v Val)
+	BufferIndex(c, i int) int
+	Channels() int
+	Length() int
+	Capacity() int
+}
+
+type tChan[T signal.SignalTypes] struct{ c signal.C[T] }
+
+func (c tChan[T]) Sample(i int) Val          { return Of(c.c.Sample(i)) }
+func (c tChan[T]) SetSample(i int, v Val)    { c.c.SetSample(i, As[T](v)) }
+func (c tChan[T]) BufferIndex(ch, i int) int { return c.c.BufferIndex(ch, i) }
+func (c tChan[T]) Channels() int             { return c.c.Channels() }
+func (c tChan[T]) Length() int               { return c.c.Length() }
+func (c tChan[T]) Capacity() int             { return c.c.Capacity() }
+
+func (b TBuf[T]) Append(src AnyBuf)        { b.B.Append(src.Raw().(*signal.Buffer[T])) }
+func (b TBuf[T]) Channel(c int) AnyChan    { return tChan[T]{b.B.Channel(c)} }
+func (b TBuf[T]) BufferIndex(c, i int) int { return b.B.BufferIndex(c, i) }
+
+// AnyPool is a type-erased signal.PoolAllocator[T].
+type AnyPool interface {
+	Get() AnyBuf
+	Put(b AnyBuf)
+	Copy() AnyPool // a by-value copy of the allocator (shares the pool)
+}
+
+type tPool[T signal.SignalTypes] struct {
+	p  *signal.PoolAllocator[T]
+	ti TypeInfo
+}
+
+func (p tPool[T]) Get() AnyBuf  { return TBuf[T]{p.p.Get(), p.ti} }
+func (p tPool[T]) Put(b AnyBuf) { p.p.Put(b.Raw().(*signal.Buffer[T])) }
+func (p tPool[T]) Copy() AnyPool {
+	cp := *p.p
+	return tPool[T]{&cp, p.ti}
+}
+
+func poolT[T signal.SignalTypes](name string) func(signal.Allocator) AnyPool {
+	ti := Info(name)
+	return func(a signal.Allocator) AnyPool {
+		p := signal.PoolAlloc[T](a)
+		return tPool[T]{&p, ti}
+	}
+}
+
+var pools = map[string]func(signal.Allocator) AnyPool{}
+
+// NewAnyPool creates a pool allocator of the named element type.
+func NewAnyPool(name string, a signal.Allocator) AnyPool { return pools[name](a) }
 
 // TBuf implements AnyBuf for one element type.
 type TBuf[T signal.SignalTypes] struct {
@@ -73,6 +131,20 @@ func init() {
 	allocators["NUintptr"] = allocT[NUintptr]("NUintptr")
 	allocators["NFloat32"] = allocT[NFloat32]("NFloat32")
 	allocators["NFloat64"] = allocT[NFloat64]("NFloat64")
+
+	pools["int"] = poolT[int]("int")
+	pools["int8"] = poolT[int8]("int8")
+	pools["int16"] = poolT[int16]("int16")
+	pools["int32"] = poolT[int32]("int32")
+	pools["int64"] = poolT[int64]("int64")
+	pools["uint"] = poolT[uint]("uint")
+	pools["uint8"] = poolT[uint8]("uint8")
+	pools["uint16"] = poolT[uint16]("uint16")
+	pools["uint32"] = poolT[uint32]("uint32")
+	pools["uint64"] = poolT[uint64]("uint64")
+	pools["uintptr"] = poolT[uintptr]("uintptr")
+	pools["float32"] = poolT[float32]("float32")
+	pools["float64"] = poolT[float64]("float64")
 }
 
 // AllocAny allocates a buffer of the named element type.
